@@ -2,7 +2,8 @@
 import core
 from core import Case, enc_b, enc_i, psec
 
-OBLIGATIONS = ["Psec.Props.C07.cbcMac_des_eq_mac1", "Psec.Props.C07.cbcMac_aes_eq_mac1", "Psec.Props.C07.cbcMac_default_length", "Psec.Props.C07.mac1_truncation", "Psec.Props.C07.mac3_truncation", "Psec.Props.C07.retailMac_eq_mac3", "Psec.Props.C07.retail_single_block", "Psec.Props.C07.mac_bad_padding"]
+EXTRA_MODULES = ["PsecModel.Props.MacCbc"]     # composition with des.encrypt_tdes_cbc (C19)
+OBLIGATIONS = ["Psec.Props.MacCbc.cbcMac_is_last_cbc_block", "Psec.Props.C07.cbcMac_des_eq_mac1", "Psec.Props.C07.cbcMac_aes_eq_mac1", "Psec.Props.C07.cbcMac_default_length", "Psec.Props.C07.mac1_truncation", "Psec.Props.C07.mac3_truncation", "Psec.Props.C07.retailMac_eq_mac3", "Psec.Props.C07.retail_single_block", "Psec.Props.C07.mac_bad_padding"]
 TRUSTED_BASE = ["Lean 4.33 kernel", "library model of CBC update() incl. a second update on the open encryptor (Cipher/Iface.lean)",
                 "Spec/ISO9797.lean is my reading of ISO/IEC 9797-1", "correspondence harness and compiled driver"]
 RULE = ("key sizes 8/16/24 and 16/24/32 (plus invalid) x message lengths 0..5 blocks at every residue x padding 1,2,3 (plus invalid selectors) "
@@ -38,6 +39,13 @@ def generate(rng, tier, seed):
                             if r.value != full[:m]:
                                 return "shorter length is not the leftmost bytes of the full MAC"
                         c.pred("CBC-MAC = ISO 9797-1 algorithm 1", p)
+                        if algname == "des" and r.ok:
+                            # MacCbc.cbcMac_is_last_cbc_block on the implementation: the MAC is the last block of the library's own
+                            # general-purpose CBC routine under a zero IV over the library's own padding
+                            pd = c.call("mac.pad_iso_%d" % padding, data, 8)
+                            ct = c.call("des.encrypt_tdes_cbc", key, bytes(8), pd.value) if pd.ok else pd
+                            if not (ct.ok and bytes(ct.value)[-8:][:m] == r.value):
+                                c.fail("CBC-MAC != last block of encrypt_tdes_cbc(key, zero IV, padded message)")
                         yield c
     # retail MAC, independent key sizes
     for k1s in (8, 16, 24):
